@@ -202,10 +202,20 @@ func execOp(tx *nutsdb.Tx, o Op) (r Res) {
 			return errRes(err)
 		}
 		return Res{V: entriesPairs(es)}
-	case "RPush":
-		return okRes(tx.RPush(o.B, o.Key, o.Vals...))
-	case "LPush":
-		return okRes(tx.LPush(o.B, o.Key, o.Vals...))
+	case "RPush", "LPush":
+		// the caller's argument array is reused after the call (see execListDS)
+		buf := make([][]byte, len(o.Vals), len(o.Vals)+3)
+		copy(buf, o.Vals)
+		var err error
+		if o.K == "RPush" {
+			err = tx.RPush(o.B, o.Key, buf...)
+		} else {
+			err = tx.LPush(o.B, o.Key, buf...)
+		}
+		for i := range buf {
+			buf[i] = []byte("\xee-overwritten-by-the-caller")
+		}
+		return okRes(err)
 	case "RPop":
 		return itemRes(tx.RPop(o.B, o.Key))
 	case "LPop":
